@@ -240,6 +240,41 @@ pub fn c15_case(dir: &Path, n: usize, word: &[CEv]) -> Result<String, V> {
         settle(&mut model, n);
         let e0 = srv.epoch();
         srv.quiesce(e0);
+        // many short-lived connections, each doing several commands and ending in turn by close, by
+        // reset, and after a bad command: the accounting must come out even after any number of them
+        let set = Req::Set(b"cyc".to_vec(), b"1".to_vec()).encode();
+        for cyc in 0..tier_cycles() {
+            let mut s = srv.connect().map_err(|e| mach(format!("connect: {}", e)))?;
+            for _ in 0..(cyc % 3) + 1 {
+                s.write_all(&get).map_err(|e| mach(e.to_string()))?;
+                match read_frame(&mut s, T20) {
+                    Ok((RFrame::Null, _)) => {}
+                    other => return Err(("slot-leaked".into(), format!("short-lived connection {} (after the word) is not served: {:?}", cyc + 1, other.map(|x| x.0)))),
+                }
+            }
+            match cyc % 4 {
+                0 => {}
+                1 => {
+                    use std::os::unix::io::AsRawFd;
+                    let lg = libc::linger { l_onoff: 1, l_linger: 0 };
+                    unsafe {
+                        libc::setsockopt(s.as_raw_fd(), libc::SOL_SOCKET, libc::SO_LINGER, &lg as *const _ as *const libc::c_void, std::mem::size_of::<libc::linger>() as u32);
+                    }
+                }
+                2 => {
+                    s.write_all(&set).map_err(|e| mach(e.to_string()))?;
+                    let _ = read_frame(&mut s, T20);
+                    let _ = s.write_all(b"*1\r\n$4\r\nNOPE\r\n");
+                    let _ = read_to_end(&mut s, T20);
+                }
+                _ => {
+                    let _ = s.write_all(&get[..get.len() / 2]);
+                }
+            }
+            drop(s);
+        }
+        let e0 = srv.epoch();
+        srv.quiesce(e0);
         let mut fresh: Vec<TcpStream> = vec![];
         for i in 0..n {
             let mut s = srv.connect().map_err(|e| mach(format!("connect: {}", e)))?;
@@ -273,6 +308,12 @@ pub fn c15_case(dir: &Path, n: usize, word: &[CEv]) -> Result<String, V> {
         return Err(("server-does-not-stop".into(), "run() did not return within 6 s after the shutdown signal with all connections closed".into()));
     }
     Ok(out)
+}
+
+/// Short-lived connections after every word (set once per process from the tier).
+static C15_CYCLES: std::sync::atomic::AtomicUsize = std::sync::atomic::AtomicUsize::new(12);
+fn tier_cycles() -> usize {
+    C15_CYCLES.load(Ordering::SeqCst)
 }
 
 fn check_c15_state(srv: &Srv, model: &[MConn], cl: &mut [CConn], e0: u64, n: usize, step: usize, word: &[CEv]) -> Result<(), V> {
@@ -334,9 +375,10 @@ fn check_c15_state(srv: &Srv, model: &[MConn], cl: &mut [CConn], e0: u64, n: usi
 pub fn c15(job: &Job, sh: &mut Shard, t0: Instant) {
     let plans: Vec<(usize, usize, usize)> = match job.tier {
         // (N, word length, max connections per word)
-        Tier::Quick => vec![(1, 6, 3), (2, 6, 3)],
-        Tier::Thorough => vec![(1, 7, 4), (2, 7, 4), (2, 8, 4)],
+        Tier::Quick => vec![(1, 6, 3), (2, 6, 3), (3, 5, 4)],
+        Tier::Thorough => vec![(1, 7, 4), (2, 7, 4), (3, 6, 4), (2, 8, 4)],
     };
+    C15_CYCLES.store(job.tier.pick(4, 24), Ordering::SeqCst);
     let dir = job.scratch().join("store");
     for (n, len, maxc) in plans {
         let words = c15_words(n, len, maxc);
@@ -1764,7 +1806,7 @@ pub fn replay(prop: &str, case: &Value, dir: &Path) -> Vec<Violation> {
 pub fn report_meta(prop: &str, tier: Tier, common: Vec<String>) -> (String, Value, Vec<String>) {
     match prop {
         "C15" => (
-            format!("explicit-state search over connection-event words on a fresh real server per word, max_connections N in {{1, 2}}: events = connect a client of kind {{sends GET, silent, half a frame, malformed bytes (server closes), handler panic (armed panic in the handler task), accept of this connection fails with ECONNABORTED (injected in the interposed accept4)}} or close the i-th open client; all words up to length {} with at most {} connections. After EVERY event: connections the accept model (FIFO accept while fewer than N handlers are alive) says are served must be answered (blocking wait), connections it says are waiting must have received nothing at quiescence, and the number of commands that reached the store must equal the model's. After the word: N fresh connections are served concurrently, one more is not, and it is served as soon as one of the N closes. Distinct+non-trivial = distinct words; states = distinct model states.", tier.pick("6", "7-8"), tier.pick(3, 4)),
+            format!("explicit-state search over connection-event words on a fresh real server per word, max_connections N in {{1, 2, 3}}: events = connect a client of kind {{sends GET, silent, half a frame, malformed bytes (server closes), handler panic (armed panic in the handler task), accept of this connection fails with ECONNABORTED (injected in the interposed accept4)}} or close the i-th open client; all words up to length {} with at most {} connections. After EVERY event: connections the accept model (FIFO accept while fewer than N handlers are alive) says are served must be answered (blocking wait), connections it says are waiting must have received nothing at quiescence, and the number of commands that reached the store must equal the model's. After the word: N fresh connections are served concurrently, one more is not, and it is served as soon as one of the N closes. Distinct+non-trivial = distinct words; states = distinct model states.", tier.pick("6", "7-8"), tier.pick(3, 4)),
             json!({"max_connections": [1, 2], "word_length": tier.pick(6, 8), "plans": tier.pick("N=1 len 6; N=2 len 6", "N=1 len 7; N=2 len 7; N=2 len 8")}),
             common,
         ),
